@@ -40,7 +40,8 @@ REQUIRED_MONITORS = ["inside-point-is-located", "located-cell-contains-point", "
 REQUIRED_REACH = ["point:vertex", "point:facet", "point:interior", "point:hole", "point:outside-box",
                   "finder-fallback-search-all", "vector-valued-element", "tensor-valued-element", "coefficient-dtypes",
                   "single-point-sequence", "query-array-updated-in-place", "more-than-2^14-points", "offset-along-one-axis",
-                  "restricted-basis-probed", "batch-with-one-outside-point", "global-element-probed"]
+                  "restricted-basis-probed", "batch-with-one-outside-point", "global-element-probed",
+                  "query-array-forms", "points-on-simplex-split-loci"]
 
 F = Fraction
 
@@ -535,6 +536,40 @@ def probes_case(ctx, k, kind):
         ctx.reached("query-array-updated-in-place")
     except ValueError:
         ctx.drop("updated-point-not-located")
+    # the same points in the array forms a caller has them in: the same matrix
+    Pref = basis.probes(x).toarray()
+    xT = np.ascontiguousarray(x.T).T                               # Fortran-ordered view (points stored row-wise)
+    big = np.zeros((x.shape[0], 2 * x.shape[1]))
+    big[:, ::2] = x
+    xro = x.copy()
+    xro.setflags(write=False)
+    for nm, xv in (("transposed-view", xT), ("strided", big[:, ::2]), ("read-only", xro)):
+        try:
+            Pv = basis.probes(xv).toarray()
+            ctx.check("repeated-permuted-points", Pv.shape == Pref.shape and np.array_equal(Pv, Pref), mech=f"probes-depend-on-array-form:{nm}", **tag)
+        except Exception as e:
+            ctx.check("repeated-permuted-points", False, mech=f"probes-reject-array-form:{nm}", error=repr(e)[:200], **tag)
+    ctx.reached("query-array-forms")
+    # complex coefficients and several coefficient vectors at once
+    yc = y + 1j * rng.standard_normal(basis.N)
+    vc = basis.interpolator(yc)(x)
+    refc = own_evaluate(basis, rec, cells, x, yc.real) + 1j * own_evaluate(basis, rec, cells, x, yc.imag)
+    ctx.close("probes-equal-local-expansion", vc, refc, rtol=rt, scale=scale + float(np.abs(refc).max()), mech="interpolator-complex-coefficients", **tag)
+    # points on the loci along which quadrilaterals / hexahedra / prisms are split into simplices for locating (cell
+    # centres, the diagonal of a face): measure zero for random points
+    if kind in ("quad", "hex", "wedge") and not glob:
+        RVm = GEO.ref_vertices(kind)
+        cen = RVm.mean(axis=1)
+        Xs = np.stack([cen, 0.5 * (RVm[:, 0] + cen), 0.5 * (RVm[:, -1] + cen), 0.5 * (RVm[:, 0] + RVm[:, 2 if kind == "quad" else -1])], axis=1)
+        cs = rng.integers(0, nt, size=Xs.shape[1])
+        xs = np.stack([GEO.map_points(kind, P, T, Xs[:, j:j + 1], np.array([cs[j]]))[:, 0, 0] for j in range(Xs.shape[1])], axis=1)
+        try:
+            cl = np.asarray(mesh.element_finder()(*xs))
+            ctx.close("probes-equal-local-expansion", np.asarray(basis.probes(xs) @ y).reshape(tshape + (xs.shape[1],)),
+                      own_evaluate(basis, rec, cl, xs, y), rtol=rt, scale=scale, mech=f"probes-on-simplex-split-loci:{kind}", **tag)
+            ctx.reached("points-on-simplex-split-loci")
+        except ValueError as e:
+            ctx.check("inside-point-is-located", False, mech=f"cell-centre-or-diagonal-point-not-located:{kind}", error=str(e)[:120], **tag)
     # point source = matching row
     ps = basis.point_source(x[:, 0])
     if not tshape:
